@@ -394,7 +394,6 @@ theorem completionLoop_tok (a : Addr) (fuel i : Nat) (r : Run) :
 theorem processCompletion_tok (a : Addr) (r : Run) (v : Val) :
     phi a (processCompletion r v).1.w (processCompletion r v).1.out ≤ phi a r.w r.out := by
   unfold processCompletion
-  dsimp only
   split
   · exact Nat.le_refl _
   · rename_i x hx
@@ -402,6 +401,7 @@ theorem processCompletion_tok (a : Addr) (r : Run) (v : Val) :
     have hpos := cntA_pos_of_get _ _ _ hx
     have haddr := taskGet_addr _ _ _ hx
     rw [haddr] at hpos
+    unfold completionEnter
     split
     · -- local result
       simp only [phi, tokW, tokMsgs, sumBy_append, sumBy, tokMsg,
